@@ -1740,11 +1740,10 @@ func (trd *tarReadData) tarReadAll(rs io.ReadSeeker) error {
 			if header.Typeflag == tar.TypeSymlink || header.Typeflag == tar.TypeLink {
 				// normalize target relative to root of tar
 				target := header.Linkname
-				if !filepath.IsAbs(target) {
-					target, err = filepath.Rel(filepath.Dir(name), target)
-					if err != nil {
-						return err
-					}
+				if header.Typeflag == tar.TypeSymlink && !filepath.IsAbs(target) {
+					// a symlink target is relative to the directory holding the link,
+					// a hard link already names its target from the root of the tar
+					target = filepath.Join(filepath.Dir(name), target)
 				}
 				target = filepath.ToSlash(filepath.Clean("/" + target)[1:])
 				// track and set handleAdded if an existing handler points to the target
